@@ -14,7 +14,7 @@ const CEIL_WRITE: usize = 64 * MIB;
 const CEIL_REPAIR: usize = 96 * MIB;
 const CEIL_LINEAR: usize = 64 * MIB;
 
-fn stream_ops(total: usize, files: usize, piece: usize, class: u64, seed: u64, interleave: bool) -> Vec<WOp> {
+fn stream_ops(total: usize, files: usize, piece: usize, class: u64, seed: u64, interleave: bool, flush_every: usize) -> Vec<WOp> {
     // pieces above 1 MiB are generated on the fly so that the harness does not hold them
     let src = || Src { sched: Sched::Full, short_by: 0, extra: 0, stream: piece > MIB };
     let mut ops = Vec::new();
@@ -41,6 +41,9 @@ fn stream_ops(total: usize, files: usize, piece: usize, class: u64, seed: u64, i
                     left[f] -= n;
                     k += 1;
                     any = true;
+                    if flush_every > 0 && k % flush_every as u64 == 0 {
+                        ops.push(WOp::Flush);
+                    }
                 }
             }
             if !any {
@@ -54,6 +57,9 @@ fn stream_ops(total: usize, files: usize, piece: usize, class: u64, seed: u64, i
                 ops.push(WOp::Append { f, data: mk(n, k), src: src() });
                 left[f] -= n;
                 k += 1;
+                if flush_every > 0 && k % flush_every as u64 == 0 {
+                    ops.push(WOp::Flush);
+                }
             }
         }
     }
@@ -75,7 +81,7 @@ struct Peaks {
 
 fn measure(case: &Case, total: usize, files: usize, piece: usize, interleave: bool, scratch: &std::path::Path, v: &mut Vec<Violation>) -> Option<Peaks> {
     let s = sut(&case.cfg.variant);
-    let ops = stream_ops(total, files, piece, case.param("class", 0) as u64, case.param("data_seed", 1) as u64, interleave);
+    let ops = stream_ops(total, files, piece, case.param("class", 0) as u64, case.param("data_seed", 1) as u64, interleave, case.param("flush_every", 0) as usize);
     let spill = scratch.join(format!("spill-{total}-{files}.mla"));
     let sink = SimSink::counting(&Sched::Full, Some(&spill));
     // the op list itself lives on the heap before the mark; only growth during the calls is measured
@@ -101,6 +107,18 @@ fn measure(case: &Case, total: usize, files: usize, piece: usize, interleave: bo
         other => v.push(Violation::new("streaming-repair-failed", "repair", format!("repair of the streamed archive ({stored} bytes): {:?}", format!("{other:?}").chars().take(200).collect::<String>()))),
     }
     drop(rep);
+    // the default mode of repair too (authenticated), when there is something to authenticate
+    let mut pr = pr;
+    if case.cfg.enc() {
+        let m = heap_mark();
+        let rep = s.repair_into(Rc::new(Vec::new()), &rcfg, true, &ocfg, SimSink::counting(&Sched::Full, None));
+        let (pa, _) = m.measure();
+        match (&rep.panic, &rep.convert) {
+            (None, Some(Ok(st))) if st.stop == "EndOfOriginalArchiveData" => {}
+            other => v.push(Violation::new("streaming-repair-failed", "repair-authenticated", format!("authenticated repair of the streamed archive ({stored} bytes): {:?}", format!("{other:?}").chars().take(200).collect::<String>()))),
+        }
+        pr = pr.max(pa);
+    }
     let names: Vec<String> = (0..files.min(8)).map(|f| format!("stream-{f}")).collect();
     let m = heap_mark();
     let lin = s.linear_opts(Rc::new(Vec::new()), &rcfg, &names, &Sched::Full, None, false);
@@ -127,7 +145,7 @@ impl Prop for C15 {
         "exploration"
     }
     fn rule(&self) -> String {
-        format!("run = on the unmodified `prod` build, for one layer set x data class (incompressible, zeros, text) x level: a generator streams S_small then S_big bytes (quick: 8 MiB and 64 MiB; thorough: 64 MiB and up to 1 GiB) in 1 MiB pieces, or as ONE piece of S bytes generated on the fly (a single content block), into a counting sink that spills to a file in a private scratch directory (nothing of the stream is held on the heap by the harness); the spilled archive is then repaired into a counting sink and linearly extracted into counting sinks - once choosing the streamed files, once choosing none of them, so that every content block goes down the skip path -, reading from the spill file through the simulated source. A counting global allocator (wrapper around System) measures the peak live heap above the level at the start of each call. Oracle: peak <= fixed ceiling (write {} MiB, repair {} MiB, linear extraction {} MiB; calibrated at about twice the unchanged tree) and peak(S_big) <= peak(S_small) + 8 MiB + 16 bytes per 4 MiB block (8 MiB = two compression blocks, covers the compressor's own block-to-block variation; a stream buffered in memory would differ by tens of MiB); a second kind of run varies the number of files F and of non-contiguous runs R (interleaved 4 KiB pieces) at a fixed total size and checks growth <= 1 KiB per file + 64 bytes per run above the single-file peak. distinct_nontrivial = distinct (layers, data class, kind, size pair) signatures.", CEIL_WRITE / MIB, CEIL_REPAIR / MIB, CEIL_LINEAR / MIB)
+        format!("run = on the unmodified `prod` build, for one layer set x data class (incompressible, zeros, text) x level: a generator streams S_small then S_big bytes (quick: 8 MiB and 64 MiB; thorough: 64 MiB and up to 1 GiB) in 1 MiB pieces, or as ONE piece of S bytes generated on the fly (a single content block), into a counting sink that spills to a file in a private scratch directory (nothing of the stream is held on the heap by the harness); on some runs a flush follows every fourth piece, on others the stream arrives as records of 500..3000 bytes with a flush after EACH (2 MiB vs 12 MiB; thorough 32 MiB), on others two files are fed alternately piece by piece; the spilled archive is then repaired (unauthenticated mode and, when encrypted, the default authenticated mode) into a counting sink and linearly extracted into counting sinks - once choosing the streamed files, once choosing none of them, so that every content block goes down the skip path -, reading from the spill file through the simulated source. A counting global allocator (wrapper around System) measures the peak live heap above the level at the start of each call. Oracle: peak <= fixed ceiling (write {} MiB, repair {} MiB, linear extraction {} MiB; calibrated at about twice the unchanged tree) and peak(S_big) <= peak(S_small) + 8 MiB + 16 bytes per 4 MiB block (8 MiB = two compression blocks, covers the compressor's own block-to-block variation; a stream buffered in memory would differ by tens of MiB); a second kind of run varies the number of files F and of non-contiguous runs R (interleaved 4 KiB pieces) at a fixed total size and checks growth <= 1 KiB per file + 64 bytes per run above the single-file peak. distinct_nontrivial = distinct (layers, data class, kind, size pair) signatures.", CEIL_WRITE / MIB, CEIL_REPAIR / MIB, CEIL_LINEAR / MIB)
     }
     fn assumptions(&self) -> Vec<String> {
         vec!["allocation failure is not injected (Rust aborts on OOM); the allocator seam only measures".into(), "the file system under the spill file is real, in a private directory removed after the run".into()]
@@ -173,6 +191,19 @@ impl Prop for C15 {
         case.params.insert("big_mib".into(), if layers & 2 != 0 && case.cfg.level >= 9 { big.min(128) } else { big });
         case.params.insert("files".into(), *rng.pick(&[200i64, 1000]));
         case.params.insert("one_piece".into(), i64::from((run / 16) % 2 == 1 || (run / 4) % 4 == 1));
+        // a flush after every 4th piece on some runs; two files fed alternately on others
+        case.params.insert("flush_every".into(), if (run / 4) % 4 == 2 { 4 } else { 0 });
+        case.params.insert("two_files".into(), i64::from((run / 4) % 4 == 0 && (run / 16) % 2 == 0));
+        if (run / 4) % 8 == 5 {
+            // small records, a flush after each one; smaller totals (tens of thousands of flushes)
+            case.params.insert("record".into(), *rng.pick(&[500i64, 1000, 3000]));
+            case.params.insert("flush_every".into(), 1);
+            case.params.insert("one_piece".into(), 0);
+            case.params.insert("two_files".into(), 0);
+            case.params.insert("small_mib".into(), 2);
+            case.params.insert("big_mib".into(), if tier == Tier::Thorough { 32 } else { 12 });
+            case.cfg.level = case.cfg.level.min(5);
+        }
         case
     }
     fn exec(&self, case: &Case, ctx: &mut Ctx) -> Vec<Violation> {
@@ -183,13 +214,18 @@ impl Prop for C15 {
         if case.param("kind", 0) == 0 {
             let small = case.param("small_mib", 8) as usize * MIB;
             let big = case.param("big_mib", 64) as usize * MIB;
-            // piece size: 1 MiB pieces, or the whole stream as ONE piece (a single content block of S bytes)
-            let piece = if case.param("one_piece", 0) == 1 { usize::MAX } else { MIB };
-            let a = measure(case, small, 1, piece, false, &scratch, &mut v);
-            let b = measure(case, big, 1, piece, false, &scratch, &mut v);
+            // piece size: 1 MiB pieces, the whole stream as ONE piece (a single content block of S bytes), or small
+            // records (a flush after each: the log-line style of producer)
+            let rec = case.param("record", 0) as usize;
+            let piece = if rec > 0 { rec } else if case.param("one_piece", 0) == 1 { usize::MAX } else { MIB };
+            // one file, or two files fed alternately (piece by piece)
+            let nf = if case.param("two_files", 0) == 1 && piece != usize::MAX { 2 } else { 1 };
+            let a = measure(case, small, nf, piece, nf > 1, &scratch, &mut v);
+            let b = measure(case, big, nf, piece, nf > 1, &scratch, &mut v);
             if let (Some(a), Some(b)) = (a, b) {
                 let blocks = big / (4 * MIB) + 1;
-                let tol = 8 * MIB + 16 * blocks;
+                // two alternating files: one run per piece, 64 bytes allowed per run
+                let tol = 8 * MIB + 16 * blocks + if nf > 1 { 64 * (big / MIB) } else { 0 };
                 for (what, pa, pb, ceil) in [("write", a.write, b.write, CEIL_WRITE), ("repair", a.repair, b.repair, CEIL_REPAIR), ("linear-extract", a.linear, b.linear, CEIL_LINEAR), ("linear-extract-skipping", a.linear_skip, b.linear_skip, CEIL_LINEAR)] {
                     ctx.eval();
                     ctx.probe_n(&format!("peak-{what}-KiB-max"), 0);
